@@ -49,7 +49,7 @@ ID = "C11"
 READY = True
 ORACLE = "c11"
 HARNESS_BIN = "c11"
-NCASES = {"quick": 2400, "thorough": 60000}
+NCASES = {"quick": 2400, "thorough": 30000}  # 60000 needed more than two hours of certified interval arithmetic
 CASE_TIMEOUT = {"quick": 120, "thorough": 300}
 MODES = ["Zero", "Away", "Up", "Down", "HalfEven", "HalfAway"]
 BASES = [2, 2, 3, 10, 10, 16, 36]
